@@ -286,7 +286,9 @@ def _route(route, v, root, box, PLE):
             with quiet():
                 TorrentFile(path=root, piece_length=str(v), progress=0, outfile=out).write()
         elif route == "cli":
-            impl.cli(["create", "--piece-length=" + str(v), "--prog", "0", "-o", out, root])
+            # quiet / verbose must not change whether a value is rejected
+            flags = [[], [], ["-q"], ["-v"]][(len(str(v)) + (v if isinstance(v, int) and abs(v) < 10 ** 6 else 0)) % 4]
+            impl.cli(flags + ["create", "--piece-length=" + str(v), "--prog", "0", "-o", out, root])
         else:
             cfg = os.path.join(box, "t.ini")
             with open(cfg, "w") as fd:
